@@ -20,9 +20,9 @@ def run(ctx):
     vf.finish(ctx)
 
 def replay(ctx, path):
+    import demcheck
     rep = json.load(open(path)); vf.build_harness(ctx)
     if 'bigmeta' in rep:
-        import demcheck
         vf.build_harness(ctx); d = demcheck.Demd(); o = d.ask(f"HDRBIG {rep['bigmeta']}"); d.close()
         print(o.replace('_', ' ')[:600]); return 0 if o.split(' ')[-1] == '-' else 1
     if 'big' in rep:
